@@ -5,7 +5,7 @@ from lv import core, model, drive, recgen, canon, ref
 from lv.props import common
 
 ID = 'C03'
-BUDGET = {'quick': 400, 'thorough': 8000}
+BUDGET = {'quick': 1100, 'thorough': 8000}
 RULE = ('recursive programs over graphs of <= 6 nodes (chains, cycles, trees, random): '
         'self recursion (linear / non-linear closure, counters, multiset recursion), '
         'mutual recursion in rings (cut by the root) and dense components (not cut), '
